@@ -16,7 +16,7 @@ Theorem SRC_inventory_id : inv_id = [
   ("impl fmt::Display for NodeId", ["fmt := { write ! (f , '{}' , self . index1) }"]);
   ("impl From for NonZeroUsize", ["from := { value . index1 }"]);
   ("impl From for usize", ["from := { value . index1 . get () }"]);
-  ("impl NodeId", ["index0"; "from_non_zero_usize"; "is_removed"; "ancestors := { Ancestors :: new (arena , self) }"; "predecessors := { Predecessors :: new (arena , self) }"; "preceding_siblings := { PrecedingSiblings :: new (arena , self) }"; "following_siblings := { FollowingSiblings :: new (arena , self) }"; "children := { Children :: new (arena , self) }"; "reverse_children := { ReverseChildren :: new (arena , self) }"; "descendants := { Descendants :: new (arena , self) }"; "traverse := { Traverse :: new (arena , self) }"; "reverse_traverse := { ReverseTraverse :: new (arena , self) }"; "detach"; "append"; "checked_append"; "append_value"; "append_new_node_unchecked"; "prepend"; "checked_prepend"; "insert_after"; "checked_insert_after"; "insert_before"; "checked_insert_before"; "remove"; "remove_subtree"; "debug_pretty_print"])
+  ("impl NodeId", ["index0"; "from_non_zero_usize"; "is_removed"; "ancestors := { Ancestors :: new (arena , self) }"; "predecessors := { Predecessors :: new (arena , self) }"; "preceding_siblings := { PrecedingSiblings :: new (arena , self) }"; "following_siblings := { FollowingSiblings :: new (arena , self) }"; "children := { Children :: new (arena , self) }"; "reverse_children := { ReverseChildren :: new (arena , self) }"; "descendants := { Descendants :: new (arena , self) }"; "traverse := { Traverse :: new (arena , self) }"; "reverse_traverse := { ReverseTraverse :: new (arena , self) }"; "detach"; "append"; "checked_append"; "append_value"; "append_new_node_unchecked"; "prepend"; "checked_prepend"; "insert_after"; "checked_insert_after"; "insert_before"; "checked_insert_before"; "remove"; "remove_subtree"; "debug_pretty_print := { DebugPrettyPrint :: new (self , arena) }"])
 ].
 Proof. reflexivity. Qed.
 
